@@ -13,14 +13,14 @@ import (
 )
 
 type vfPausePlan struct {
-	Dir     string  `json:"gate_direction"`
-	Index   int     `json:"message_index"`
-	Before  bool    `json:"before"`
-	Type    string  `json:"message_type"`
-	PauseMs []int   `json:"pause_ms"` // one entry per pause/resume cycle
-	GapMs   int     `json:"gap_ms"`
-	Via     string  `json:"via"` // api (what the prompt goroutine calls) or keys (Ctrl-C + q on the real filter)
-	Tau     int     `json:"timeout_s"`
+	Dir     string `json:"gate_direction"`
+	Index   int    `json:"message_index"`
+	Before  bool   `json:"before"`
+	Type    string `json:"message_type"`
+	PauseMs []int  `json:"pause_ms"` // one entry per pause/resume cycle
+	GapMs   int    `json:"gap_ms"`
+	Via     string `json:"via"` // api (what the prompt goroutine calls) or keys (Ctrl-C + q on the real filter)
+	Tau     int    `json:"timeout_s"`
 }
 
 func vfPauseScenarios() []vfScenario {
